@@ -415,6 +415,79 @@ func runC07(c *mc.Ctx) {
 		})
 	}
 	c.Sample("b58str", c07Str{Fn: "b58", S: mc.Hex([]byte("1Il"))})
+	// low-entropy digit strings: a decoder that works on groups of digits (or an encoder on groups of
+	// bytes) goes wrong on a group that is all zero digits or all maximal digits at a particular
+	// offset, which strings of 3-4 arbitrary letters never contain.  (a) every string over
+	// {'1','2','z'} up to length 12(13) and over {'1','z'} up to length 20(22); (b) every string of
+	// length <= 64(96) that is a run of one letter ('1' or 'z') except at <= 2 positions.
+	for _, fam := range []struct {
+		letters string
+		maxN    int
+	}{{"12z", mc.Pick(c, 12, 13)}, {"1z", mc.Pick(c, 20, 22)}} {
+		fam := fam
+		for n := 5; n <= fam.maxN; n++ {
+			n := n
+			size := ipow(len(fam.letters), n)
+			c.Space(fmt.Sprintf("base58 strings of length %d over {%s}", n, fam.letters), size)
+			c.ParFor(size, func(w *mc.W, i int64) {
+				w.State()
+				c07EvalB58Str(w, c07Str{Fn: "b58", S: mc.Hex(bytesOfLen([]byte(fam.letters), n, i))})
+			})
+		}
+	}
+	{
+		var sparse [][]byte
+		for L := 5; L <= mc.Pick(c, 64, 96); L++ {
+			for _, bg := range []struct {
+				run byte
+				alt string
+			}{{'1', "2z"}, {'z', "1y"}} {
+				for p1 := 0; p1 < L; p1++ {
+					for _, a := range []byte(bg.alt) {
+						b := bytes.Repeat([]byte{bg.run}, L)
+						b[p1] = a
+						sparse = append(sparse, b)
+						for p2 := p1 + 1; p2 < L; p2++ {
+							b2 := append([]byte{}, b...)
+							b2[p2] = bg.alt[0]
+							sparse = append(sparse, b2)
+						}
+					}
+				}
+			}
+		}
+		c.Space("base58 strings that are a run of '1' or 'z' except at <= 2 positions (length 5..max)", int64(len(sparse)))
+		c.ParFor(int64(len(sparse)), func(w *mc.W, i int64) {
+			w.State()
+			c07EvalB58Str(w, c07Str{Fn: "b58", S: mc.Hex(sparse[i])})
+		})
+		// the byte-string side of the same idea: runs of 0x00 or 0xff except at <= 2 positions
+		var sb [][]byte
+		for L := 3; L <= mc.Pick(c, 48, 72); L++ {
+			for _, bg := range []struct {
+				run byte
+				alt []byte
+			}{{0x00, []byte{0x01, 0xff}}, {0xff, []byte{0x00, 0xfe}}} {
+				for p1 := 0; p1 < L; p1++ {
+					for _, a := range bg.alt {
+						b := bytes.Repeat([]byte{bg.run}, L)
+						b[p1] = a
+						sb = append(sb, b)
+						for p2 := p1 + 1; p2 < L; p2++ {
+							b2 := append([]byte{}, b...)
+							b2[p2] = bg.alt[0]
+							sb = append(sb, b2)
+						}
+					}
+				}
+			}
+		}
+		c.Space("base58 byte strings that are a run of 0x00 or 0xff except at <= 2 positions (length 3..max)", int64(len(sb)))
+		c.ParFor(int64(len(sb)), func(w *mc.W, i int64) {
+			w.State()
+			c07EvalB58Bytes(w, c07Bytes{Fn: "b58", Hex: mc.Hex(sb[i])})
+		})
+	}
 
 	// 3. Base58Check encode: version 0..255 x payloads.
 	small := []byte{0x00, 0x01, 0xff}
